@@ -329,6 +329,11 @@ pub fn replay_doc(prep: &Prepared, gen: Option<(u64, u64, &str)>, op: &StoreOp, 
 }
 
 fn job_workload(master: u64, job: u64, tier: Tier) -> Vec<u8> {
+    if tier == Tier::Thorough && job >= 1500 {
+        if let Some(f) = workload::sample_file((job - 1500) as usize) {
+            return f;
+        }
+    }
     let mut rng = Rng::new(derive(master ^ 0xb10b, job));
     if job % 16 == 5 {
         // a large incompressible file (stored media, encrypted data): the zstd frame consists of
@@ -390,7 +395,7 @@ impl Engine for BlobEngine {
     fn jobs(&self, tier: Tier) -> u64 {
         match tier {
             Tier::Quick => 64,
-            Tier::Thorough => 1500,
+            Tier::Thorough => 1500 + workload::SAMPLE_FILES.len() as u64,
         }
     }
 
